@@ -40,7 +40,7 @@ def posOf (l : List Nat) (x : Nat) : Nat := (l.findIdx? (· == x)).getD l.length
 
 def sortI (l : List Int) : List Int := (l.toArray.insertionSort (· < ·)).toList
 
-def handle (c : Case) : Res := Id.run do
+def handleCore (requireWf : Bool) (c : Case) : Res := Id.run do
   let m := c.pInt "m"; let jcol := c.pInt "jcol"; let nseg0 := c.pInt "nseg0"
   let inp : Input :=
     { m := m, jcol := jcol, maxsuper := c.pInt "maxsuper", perm_r := c.int "in.perm_r", nseg := nseg0,
@@ -53,7 +53,8 @@ def handle (c : Case) : Res := Id.run do
   let tags0 := [s!"ty={c.ty}", s!"jcol={bucket j}", s!"ns={bucket (c.pNat "ns")}", s!"mode={c.p "mode"}", s!"pv={c.p "pv"}",
                 s!"closev={c.p "closev"}", s!"dup={c.p "dup"}", s!"dens={c.p "dens"}", s!"openlen={bucket (c.pNat "openlen")}",
                 s!"maxsuper={c.p "maxsuper"}"]
-  if !wfIn inp then return Res.skip "generated state is outside wfIn"
+  if requireWf && !wfIn inp then return Res.skip "generated state is outside wfIn"
+  let tags0 := if requireWf then tags0 else (if wfIn inp then "wfIn=1" else "wfIn=0") :: tags0
   if c.p "moved" == "1" then return Res.corr "lsub was reallocated: the growth request fired although the capacity was sufficient" tags0
   let oSegrep := c.int "out.segrep"; let oRepfnz := c.int "out.repfnz"; let oLsub := c.int "out.lsub"
   let oXlsub := c.int "out.xlsub"; let oNseg := c.pInt "nseg"; let ret := c.pInt "ret"
@@ -108,5 +109,9 @@ def handle (c : Case) : Res := Id.run do
     for r in cmps do
       if let some msg := r then return Res.corr msg tags
     return Res.ok (viaOther && newSeg.length ≥ 2) tags "exact"
+
+
+/-- family `coldfs`: synthetic states, which must satisfy `wfIn` -/
+def handle (c : Case) : Res := handleCore true c
 
 end Slu.Drv.ColDfs
